@@ -29,7 +29,10 @@ func Register() {
 			"oraclefeed.history_trimmed_on_insert", "oraclefeed.history_shrunk_below_stored",
 			"oraclefeed.history_grown", "oraclefeed.stranger_attempt", "oraclefeed.auto_paused",
 			"oraclefeed.start_ok", "oraclefeed.pause_ok", "oraclefeed.edit_ok",
-			"oraclefeed.price_feed_created", "oraclefeed.exchange_rate_used"},
+			"oraclefeed.price_feed_created", "oraclefeed.exchange_rate_used",
+			"oraclefeed.prefix_named_feeds_with_values", "oraclefeed.prefix_named_feeds_different_bounds",
+			"oraclefeed.history_edit_rolled_back", "oraclefeed.threshold_raised_mid_batch_decides",
+			"oraclefeed.threshold_lowered_mid_batch_decides"},
 		Rule: "a run is non-trivial when at least one freshly stored feed value was compared with the exact aggregate of the responses the harness submitted, and the feed-value history and the feed state index were compared with the model after a block; distinct = different fingerprint of the executed (operation kind, outcome class) sequence",
 	})
 }
